@@ -253,6 +253,7 @@ func genC08(seed uint64, run int, tier string) *Plan {
 	g := newGen(r)
 	g.failing = 15
 	g.wide = 25
+	g.etxn = 4
 	g.ids = 3 + r.IntN(3)
 	if r.IntN(2) == 0 {
 		g.colls = []string{"c0"}
